@@ -73,6 +73,12 @@ def replay_member(shape, moore, plus_one, op, values):
     """Real operator on one member vs explicit game solving / graph search. No z3."""
     from vlib import bdd2smt, family, xplay
     aut, params = family.build(shape, moore, plus_one)
+    # the real operator runs on the family itself (rigid constants stay in the support, as in the failing run);
+    # its result is then read at the member's constant values
+    afam, _ = family.build(shape, moore, plus_one)
+    rfam = real_op(op, afam, afam.win['[]<>'][0], afam.win['<>[]'][0])
+    rfam = afam.let({p: values[p] for p in params if p in afam.support(rfam)}, rfam) if \
+        set(params) & afam.support(rfam) else rfam
     c01.concrete_member(aut, {p: values[p] for p in params})
     ex = family.Explicit(aut, bdd2smt.Exporter(aut.bdd))
     E, S, goals, holds, truth = c01.concrete_tables(aut, ex)
@@ -119,6 +125,12 @@ def replay_member(shape, moore, plus_one, op, values):
             got_set = cur
         want = {s: (s in got_set) for s in ex.S}
     diffs = [(ex.state_values(s), truth(r, s), want[s]) for s in ex.S if truth(r, s) != want[s]]
+    if not diffs:
+        def truth_fam(s):
+            d = {k: v for k, v in ex.state_values(s).items() if k in afam.support(rfam)}
+            w = afam.let(d, rfam) if d else rfam
+            return w == afam.true
+        diffs = [(ex.state_values(s), truth_fam(s), want[s]) for s in ex.S if truth_fam(s) != want[s]]
     return diffs
 
 
@@ -204,6 +216,33 @@ def family_op(shape, moore, plus_one, ops):
     return out
 
 
+def member_instances(shape, moore, plus_one, ops, seeds):
+    """Per-member runs of the operators that iterate to a fixpoint: loop termination is decided on the whole
+    family BDD in a family run, so a loop that stops too early for one member only shows on that member."""
+    import random
+    from vlib import family
+    out = []
+    for seed in seeds:
+        rnd = random.Random(seed)
+        aut, params = family.build(shape, moore, plus_one)
+        vals = family.random_member(aut, params, rnd)
+        for op in ops:
+            name = f'{op} member {shape}#{seed} moore={moore} plus_one={plus_one}'
+            sample = dict(shape=shape, op=op, member=c01._describe(vals, params), moore=moore, plus_one=plus_one)
+            try:
+                diffs = replay_member(shape, moore, plus_one, op, vals)
+            except Exception as e:  # noqa
+                diffs = [('-', f'raised {type(e).__name__}: {e}', '-')]
+            if diffs:
+                out.append(core.res(name, 'violation', sample=sample, nontrivial=True, functions=FUNCS,
+                                    signature=f'{op}:member', detail=f'member {c01._describe(vals, params)} of {shape}: {op} at '
+                                    f'{diffs[0][0]} returns {diffs[0][1]}, explicit computation gives {diffs[0][2]}',
+                                    cex=dict(shape=shape, moore=moore, plus_one=plus_one, op=op, values=vals)))
+            else:
+                out.append(core.res(name, 'holds', sample=sample, nontrivial=True, functions=FUNCS))
+    return out
+
+
 def replay(payload):
     c = payload['cex']
     d = replay_member(c['shape'], c['moore'], c['plus_one'], c['op'], c['values'])
@@ -217,8 +256,8 @@ def run(tier, seed, t0, only=None):
                   ('B21', 'cudd', ONE), ('B12', 'cudd', ONE), ('I11a', 'cudd', ONE), ('I11n', 'cudd', ONE)]
     else:
         shapes = [('B11b', 'cudd', OPS), ('B02', 'cudd', OPS), ('S11', 'autoref', OPS), ('B11b', 'autoref', OPS),
-                  ('B11c21', 'cudd', OPS), ('B21', 'cudd', ONE), ('B12', 'cudd', ONE), ('I11a', 'cudd', ONE),
-                  ('I11n', 'cudd', ONE), ('I11b', 'cudd', ONE), ('S21', 'cudd', OPS), ('S12', 'cudd', OPS)]
+                  ('S11h2', 'cudd', OPS), ('T11b', 'cudd', OPS), ('B21', 'cudd', ONE), ('B12', 'cudd', ONE), ('I11a', 'cudd', ONE),
+                  ('I11n', 'cudd', ONE), ('I11b', 'cudd', ONE), ('S21', 'cudd', ONE), ('S12', 'cudd', ONE)]
     tasks = []
     for shape, be, ops in shapes:
         for moore, plus_one in MODES:
@@ -229,6 +268,15 @@ def run(tier, seed, t0, only=None):
                                   kw=dict(shape=shape, moore=moore, plus_one=plus_one, ops=[op]),
                                   backend=be, timeout=300 if tier == 'quick' else 3000,
                                   name=f'{be}:{op}:{shape}:moore={moore}:plus_one={plus_one}'))
+    loops = [o for o in OPS if o not in ('step', 'ee_image')]
+    nmem = 24 if tier == 'quick' else 400
+    for shape in ('B11b', 'B02', 'S11'):
+        for moore, plus_one in MODES:
+            sds = [seed * 100000 + i for i in range(nmem)]
+            for i in range(0, nmem, 24):
+                tasks.append(dict(mod='vlib.props.c11', fn='member_instances',
+                                  kw=dict(shape=shape, moore=moore, plus_one=plus_one, ops=loops, seeds=sds[i:i + 24]),
+                                  timeout=3000, name=f'cudd:members:{shape}:moore={moore}:plus_one={plus_one}[{i}]'))
     tasks.append(dict(mod='vlib.props.c01', fn='validate_reference', kw=dict(seed=seed * 100 + 11, n=10 if tier == 'quick' else 100),
                       timeout=3000, name='xref-validation'))
     if only:
